@@ -288,7 +288,8 @@ class Rig:
         loop = self.loop
         proto = PortProtocol(lambda msg: None, disable_qos=case.get("disable_qos"))
         self.protocol = proto
-        tr = ScriptedTransport(self, self.gwy_id)
+        # "id_unknown": the transport never learnt its id (HGI80 / lost signature); frames keep the placeholder
+        tr = ScriptedTransport(self, None if case.get("id_unknown") else self.gwy_id)
         self.transport = tr
         proto.connection_made(tr, ramses=True)
         await vclock.quiesce()
